@@ -290,10 +290,13 @@ def pairs_rule(rep, prog, cfg):
         "mpd_client::responses::parse_channel_messages": {"channel", "message"},
         "mpd_client::responses::playlist::Playlist::parse_frame": {"playlist", "Last-Modified"},
         "mpd_client::responses::count::build_grouped_values": {"songs", "playtime"},
+        "mpd_client::responses::sticker::StickerFind::from_frame": {"file", "sticker"},
+        "mpd_client::responses::sticker::StickerGet::from_frame": {"sticker"},
+        "<mpd_client::commands::definitions::ListChannels as mpd_client::commands::Command>::response": {"channel"},
     }
     for fn, keys in expect.items():
-        bs = body_by_name(prog, fn)
-        short = fn.rsplit("::", 1)[-1]
+        bs = body_by_name(prog, fn) or [x for x in prog.bodies.values() if norm(x.name) == fn and x.kind in ("Fn", "AssocFn")]
+        short = "::".join(fn.replace(" as mpd_client::commands::Command>", "").replace("<", "").rsplit("::", 2)[-2:])
         if len(bs) != 1:
             rep.fail(rule + ".anchor", "%s/%s" % (cfg, short), fn, "function not found")
             continue
@@ -308,7 +311,7 @@ def pairs_rule(rep, prog, cfg):
             if c["lit"] not in keys:
                 continue
         errs = [1 for bb, t in b.calls() if any(n.startswith("mpd_client::responses::TypedResponseError::") for n in callee_names(t))]
-        rep.check(len(errs) >= 2, rule, "%s/%s rejects" % (cfg, short), b.loc(b.span),
+        rep.check(len(errs) >= (2 if len(keys) > 1 and "Sticker" not in fn else 1), rule, "%s/%s rejects" % (cfg, short), b.loc(b.span),
                   "%s has no error path for unexpected/missing fields" % short)
 
 
